@@ -52,17 +52,17 @@ type wait struct {
 }
 
 type st struct {
-	slot, toPub          *val
-	lastCid              int // -1 none
-	pubStamp, skipStamp  int
-	waiter               int // -1 none
-	quick, longer, imm   bool
-	inPub                bool
-	cancelled, stopped   bool
-	log                  []string
-	clock, time          int
-	upds                 []upd
-	waits                []wait
+	slot, toPub         *val
+	lastCid             int // -1 none
+	pubStamp, skipStamp int
+	waiter              int // -1 none
+	quick, longer, imm  bool
+	inPub               bool
+	cancelled, stopped  bool
+	log                 []string
+	clock, time         int
+	upds                []upd
+	waits               []wait
 }
 
 func newSt(last int) *st { return &st{lastCid: last, waiter: -1, imm: true} }
@@ -603,8 +603,11 @@ func execRun(c vh.Case, o *vh.Out) {
 				r.hold = nil
 			}
 			r.mu.Unlock()
-		case "close":
-			if !closed {
+		case "close": // a second Close exercises closeOnce: it only waits for the loop to stop
+			{
+				if closed {
+					o.Kind("close-again")
+				}
 				closed = true
 				r.mu.Lock()
 				j := r.nWait
@@ -714,9 +717,19 @@ func judgeTrace(last int, trace []vis, o *vh.Out) {
 	}
 	// WaitPub / Close: when it returns successfully and no Update overlapped it, the newest value handed
 	// over before the call is the last successfully published value (or equals the initial one, or a value handed over later was published)
+	firstClose := -1
+	for _, v := range trace {
+		if v.kind == "CC" {
+			firstClose = v.id
+			break
+		}
+	}
 	for i, v := range trace {
 		if !((v.kind == "WR" || v.kind == "CR") && v.ok) {
 			continue
+		}
+		if v.kind == "CR" && v.id != firstClose {
+			continue // closeOnce: only the first Close flushes; later ones just wait for the stopped loop
 		}
 		call := -1
 		for k := 0; k < i; k++ {
@@ -951,6 +964,9 @@ func genRun(r *vh.Rand, tier string, id string) vh.Case {
 	}
 	if r.Chance(1, 3) {
 		c.Ops = append(c.Ops, "close")
+		if r.Chance(1, 3) {
+			c.Ops = append(c.Ops, "close")
+		}
 	}
 	return c
 }
